@@ -529,8 +529,12 @@ def oracle_history(trace, outcome, dist=None):
 # adapters: contract scenarios on the REAL runtimes (one scenario per subprocess)
 # =====================================================================================
 ADAPTERS = ["select", "zmq", "asyncio", "tornado", "twisted", "trio"]
-SCENARIOS = ["alarms", "overdue_order", "overdue_remove", "watch", "watch_sibling", "idle", "idle_remove",
-             "exc_alarm", "exc_watch", "exc_idle", "exit_alarm", "exit_watch", "exit_idle"]
+SCENARIOS = ["alarms", "many_alarms", "overdue_order", "overdue_remove", "watch", "watch_fd0", "watch_sibling", "idle",
+             "idle_remove", "exc_alarm", "exc_watch", "exc_idle", "exit_alarm", "exit_watch", "exit_idle",
+             "rerun_alarm", "rerun_watch", "rerun_idle"]
+# delays (in units) of the many_alarms scenario, registration order; the handles at REMOVED positions are removed before run()
+MANY_DELAYS = [2, 8, 4, 12, 10, 14, 6, 16, 5, 9]
+MANY_REMOVED = [3, 1]
 U = 0.05
 
 
@@ -612,8 +616,18 @@ def adapter_worker(name, scen):
         h3[0] = alarm(3, "d3")
         alarm(2, "d2", in_d2)
         alarm(12, "exit", bye)
-    elif scen in ("watch", "exc_watch", "exit_watch"):
+    elif scen == "many_alarms":
+        # many pending alarms registered out of order, inner entries removed: the rest must fire in due order
+        hs = [alarm(d, "m%d" % d) for d in MANY_DELAYS]
+        for k, i in enumerate(MANY_REMOVED):
+            res["rm%d" % k] = bool(loop.remove_alarm(hs[i]))
+        alarm(20, "exit", bye)
+    elif scen in ("watch", "watch_fd0", "exc_watch", "exit_watch"):
         r, w = os.pipe()
+        if scen == "watch_fd0":
+            os.dup2(r, 0)          # the watched descriptor is number 0 (standard input)
+            os.close(r)
+            r = 0
         n = [0]
         hh = [None]
 
@@ -621,7 +635,7 @@ def adapter_worker(name, scen):
             os.read(r, 1)
             n[0] += 1
             L("w")
-            if scen != "watch":
+            if scen not in ("watch", "watch_fd0"):
                 raiser()
             if n[0] == 2:
                 res["rm1"] = bool(loop.remove_watch_file(hh[0]))
@@ -679,6 +693,52 @@ def adapter_worker(name, scen):
         alarm(1, "a1")
         alarm(7, "late")
         alarm(12, "exit", bye)
+    elif scen.startswith("rerun_"):
+        # run() is called three times on the same loop object: the 1st is ended by an exception raised in an
+        # alarm / watch / idle callback, the 2nd by ExitMainLoop, the 3rd by a new exception
+        kind = scen.split("_")[1]
+        phase = [1]
+        booms = {1: Boom("first"), 3: Boom("third")}
+
+        def trigger():
+            L("t%d" % phase[0])
+            if phase[0] == 2:
+                raise ExitMainLoop()
+            raise booms[phase[0]]
+        outcomes = []
+        for ph in (1, 2, 3):
+            phase[0] = ph
+            hnd = None
+            if kind == "alarm":
+                alarm(2, "trig%d" % ph, trigger)
+            elif kind == "idle":
+                hnd = loop.enter_idle(trigger)
+                alarm(1, "kick%d" % ph)
+            else:
+                r, w = os.pipe()
+                os.write(w, b"x")
+
+                def wcb(r=r):
+                    os.read(r, 1)
+                    trigger()
+                hnd = loop.watch_file(r, wcb)
+            guard = alarm(12, "guard%d" % ph, bye)     # backstop: ends a run that did not stop by itself
+            try:
+                loop.run()
+                outcomes.append("returned")
+            except Boom as e:
+                outcomes.append("raised-%s" % {id(booms[1]): "first", id(booms[3]): "third"}.get(id(e), "other-boom"))
+            except BaseException as e:
+                outcomes.append("raised:" + type(e).__name__)
+                break
+            L("run%d:end" % ph)
+            loop.remove_alarm(guard)
+            if kind == "idle":
+                loop.remove_enter_idle(hnd)
+            elif kind == "watch":
+                loop.remove_watch_file(hnd)
+        print("C13RESULT " + json.dumps({"outcome": ",".join(outcomes), "log": log, "res": res}), flush=True)
+        os._exit(0)
     else:
         raise SystemExit("unknown scenario " + scen)
     try:
@@ -721,6 +781,8 @@ def oracle_adapter(case, r):
             if t < due_ms(label, units) - 5:
                 hard.append(f"alarm {label} ran before its due time")
     exp_outcome = "raised-same" if scen.startswith("exc_") else "returned"
+    if scen.startswith("rerun_"):
+        exp_outcome = outcome      # judged below
     if outcome != exp_outcome:
         # when the backstop alarm ended the run, a long stall could be the reason: must repeat
         (soft if (outcome == "returned" and "exit" in names) else hard).append(
@@ -738,6 +800,38 @@ def oracle_adapter(case, r):
             soft.append("an alarm that was not removed did not run exactly once before a later alarm stopped the loop")
         elif names.index("a3") < names.index("a1"):
             soft.append("an alarm callback ran before an alarm due earlier")
+    elif scen == "many_alarms":
+        kept = [d for i, d in enumerate(MANY_DELAYS) if i not in MANY_REMOVED]
+        for d in MANY_DELAYS:
+            check_alarm("m%d" % d, d)
+        if any(res.get("rm%d" % k) is not True for k in range(len(MANY_REMOVED))):
+            hard.append("remove_alarm of a pending alarm reported failure")
+        if any(("m%d" % MANY_DELAYS[i]) in names for i in MANY_REMOVED):
+            hard.append("the callback of a removed alarm ran")
+        order = [n for n in names if n in ["m%d" % d for d in kept]]
+        if sorted(order) != sorted("m%d" % d for d in kept):
+            soft.append("an alarm that was not removed did not run exactly once before a later alarm stopped the loop")
+        elif order != ["m%d" % d for d in sorted(kept)]:
+            # every alarm is 50 ms apart: a stall can make several overdue at once, which must still run in due order
+            hard.append("an alarm callback ran before an alarm due earlier (many pending alarms, inner entries removed)")
+    elif scen.startswith("rerun_"):
+        outs = outcome.split(",")
+        exp = ["raised-first", "returned", "raised-third"]
+        for i, e in enumerate(exp):
+            o = outs[i] if i < len(outs) else "missing"
+            if o == "raised:ReactorNotRestartable" and case["adapter"] == "twisted":
+                break   # a twisted reactor that was stopped cannot be started again in this process: nothing more to judge
+            if o != e:
+                msg = f"run() number {i + 1} on the same loop ended with '{o}', expected '{e}'"
+                # a run ended by its backstop alarm could be a stall: must repeat
+                (soft if ("guard%d" % (i + 1)) in names else hard).append(msg)
+                break
+            if ("t%d" % (i + 1)) not in names:
+                soft.append(f"the {scen.split('_')[1]} callback registered for run() number {i + 1} never ran: "
+                            "the run was ended by the backstop alarm")
+                break
+            if names.count("t%d" % (i + 1)) > 3:
+                soft.append("the raising callback kept running: the loop did not stop")
     elif scen == "overdue_order":
         for lab, u in (("slow", 1), ("d2", 2), ("d3", 3), ("d4", 4)):
             check_alarm(lab, u)
@@ -757,7 +851,7 @@ def oracle_adapter(case, r):
             hard.append("remove_alarm of a pending alarm reported failure")
         elif "d3" in names:
             hard.append("the callback of a removed alarm ran")
-    elif scen == "watch":
+    elif scen in ("watch", "watch_fd0"):
         if names.count("w") > 2:
             hard.append("the callback of a removed watch ran (data remained readable)")
         elif names.count("w") < 2:
@@ -859,8 +953,8 @@ class C13(core.Check):
                   "its virtual time, every return value, the outcome of run(), the final state) on exhaustive small scenarios (<= 3 "
                   "alarms, 2 descriptors, 2 idle callbacks, every callback behaviour of a menu) and random ones.  ORACLE ONLY (no "
                   "theorem): asyncio, tornado, twisted, trio adapters and the zmq/select loops on their real poller/selector are "
-                  "contract-tested on the real runtimes (13 scenarios each: order, once-ness, not-before-due, removal results, "
-                  "same-batch sibling removal, overdue order, idle-after-callback, exception propagation); one known finding remains "
+                  "contract-tested on the real runtimes (18 scenarios each: order, once-ness, not-before-due, removal results, "
+                  "same-batch sibling removal, overdue order, many out-of-order alarms with removals, descriptor 0, idle-after-callback, exception propagation, run() called again after an exception); one known finding remains "
                   "for TrioEventLoop (alarms overdue at the same time run in arbitrary order); glib is not installed "
                   "and not covered.")
     level_note = ("Trusted: Coq kernel; ExtrOcamlBasic extraction + OCaml driver; the hand-written models (validated by the "
@@ -871,10 +965,12 @@ class C13(core.Check):
                   "exception facts are asserted at once, facts that a long stall of the process could also produce only when "
                   "they repeat 3 times in a row.")
     rule = ("virtual cases = (loop, setup calls, behaviour table id x call-number -> actions, environment steps); exhaustive "
-            "small scope: 7 alarm sets x 3 watch sets x 0..2 idle callbacks x every registered callback as the actor x 24 "
+            "small scope: 7 alarm sets x 4 watch sets (incl. descriptor 0) x 0..2 idle callbacks x every registered callback as the actor x 26 "
             "behaviours (remove sibling/self, double remove, remove+re-add, add alarm incl. overdue, add idle/watch, slow "
-            "callback, ExitMainLoop, other exception) x environments (quick: sampled, thorough: all) + random cases; "
-            "non-trivial = at least one callback ran; distinct by hash of (case, history); adapter cases = 6 loops x 13 scenarios")
+            "callback, ExitMainLoop, other exception) x environments (quick: sampled, thorough: all) + random cases + cases with "
+            "5..10 alarms registered in arbitrary order with removals of inner entries (thorough: every order of 7); "
+            "non-trivial = at least one callback ran; distinct by hash of (case, history); adapter cases = 6 loops x 18 scenarios "
+            "(incl. 10 out-of-order alarms with removals, a watched descriptor number 0, three run() calls on one loop object)")
     trusted_base = [
         "Coq 8.16.1 kernel (coqc; vm_compute only for closed examples and the refutation witness)",
         "extraction: ExtrOcamlBasic only; Z stays a Coq datatype; OCaml 4.13.1; tools/driver/driver.ml",
@@ -963,13 +1059,15 @@ class C13(core.Check):
     ACTOR_MENU = [
         [["rm_alarm", 0]], [["rm_alarm", 1]], [["rm_alarm", 2]], [["rm_alarm", 1], ["rm_alarm", 1]],
         [["rm_watch", 7]], [["rm_watch", 8]], [["rm_watch", 7], ["watch", 7, 42]], [["rm_watch", 8], ["rm_watch", 8]],
+        [["rm_watch", 0]], [["rm_watch", 0], ["rm_watch", 0]],
         [["rm_idle", 1]], [["rm_idle", 2]], [["rm_idle", 1], ["rm_idle", 1]], [["rm_idle", 1], ["idle", 41]],
         [["alarm", 0, 40]], [["alarm", 2, 40]], [["alarm", -1, 40]], [["idle", 41]], [["watch", 7, 42]], [["watch", 9, 42]],
         [["sleep", 3]], [["sleep", 3], ["rm_alarm", 1]], [["exit"]], [["boom"]], [["rm_watch", 7], ["boom"]],
         [["alarm", 1, 40], ["exit"]],
     ]
     ALARM_SETS = [[], [1], [2, 1], [1, 1], [0, 2], [3, 1, 2], [2, 2, 2]]
-    WATCH_SETS = [[], [7], [7, 8]]
+    WATCH_SETS = [[], [7], [7, 8], [0, 8]]
+    WATCH_ID = {7: 20, 8: 21, 0: 23}
     ENVS = [
         [[0, []]] * 10 + [[0, [7, 8]], [0, []], [0, []]],
         [[0, []], [1, [7]]] + [[0, []]] * 6 + [[1, [8, 7]], [0, []], [0, [7]], [0, []], [0, []]],
@@ -977,6 +1075,7 @@ class C13(core.Check):
         [[0, [8, 7]], [0, [7]], [0, [8, 9]]] + [[0, []]] * 6 + [[3, [7]], [0, []], [0, []]],
         [[2, []]] * 8 + [[2, [7, 8]], [2, []], [2, []]],
         [[0, []], [0, []], [1, [7, 8]], [0, [7]], [5, [8]]] + [[0, []]] * 6 + [[0, [8, 7]], [0, []], [0, []]],
+        [[0, [0, 8]], [0, []], [1, [0]], [0, [8, 0]]] + [[0, []]] * 5 + [[0, [0, 7, 8]], [0, []], [0, [0]], [0, []]],
     ]
 
     def small_scenarios(self, loop, rng, tier):
@@ -987,7 +1086,7 @@ class C13(core.Check):
             for ws in self.WATCH_SETS:
                 for nidle in (0, 1, 2):
                     setup = [["alarm", dt, 10 + i] for i, dt in enumerate(al)]
-                    setup += [["watch", fd, 20 + fd - 7] for fd in ws]
+                    setup += [["watch", fd, self.WATCH_ID[fd]] for fd in ws]
                     setup += [["idle", 31 + j] for j in range(nidle)]
                     ids = [a[2] for a in setup if a[0] in ("alarm", "watch")] + [a[1] for a in setup if a[0] == "idle"]
                     if not ids:
@@ -1011,9 +1110,9 @@ class C13(core.Check):
         if k == "rm_alarm":
             return [k, rng.choice([0, 0, 1, 1, 2, 3, 4, -1, 9])]
         if k == "watch":
-            return [k, rng.choice([7, 8, 9]), rng.randrange(20, 24)]
+            return [k, rng.choice([0, 7, 8, 9]), rng.randrange(20, 24)]
         if k == "rm_watch":
-            return [k, rng.choice([7, 8, 9])]
+            return [k, rng.choice([0, 7, 8, 9])]
         if k == "idle":
             return [k, rng.randrange(30, 34)]
         if k == "rm_idle":
@@ -1039,10 +1138,28 @@ class C13(core.Check):
             beh.append([rng.choice(list(range(10, 18)) + list(range(20, 24)) + list(range(30, 34))), rng.choice([-1, -1, 0, 1, 2]), acts])
         env = []
         for _ in range(rng.choice([3, 6, 10, 16])):
-            fds = [fd for fd in (7, 8, 9) if rng.random() < 0.3]
+            fds = [fd for fd in (0, 7, 8, 9) if rng.random() < 0.3]
             rng.shuffle(fds)
             env.append([rng.choice([0, 0, 0, 1, 2, 4]), fds])
         return {"loop": loop, "setup": setup, "beh": beh, "env": env}
+
+    def many_alarms_case(self, loop, rng, delays=None):
+        """5..10 pending alarms registered in an arbitrary order, inner entries removed (before run() and from
+        callbacks), sometimes re-added: the alarm container must keep firing them in due order"""
+        if delays is None:
+            n = rng.choice([5, 6, 7, 7, 8, 9, 10])
+            delays = rng.sample(range(1, 2 * n), n) if rng.random() < 0.7 else [rng.randrange(1, n) for _ in range(n)]
+        n = len(delays)
+        setup = [["alarm", d, 100 + i] for i, d in enumerate(delays)]
+        for _ in range(rng.choice([1, 1, 2, 3])):
+            setup.append(["rm_alarm", rng.randrange(n)])
+            if rng.random() < 0.25:
+                setup.append(["alarm", rng.randrange(1, 2 * n), 100 + n + len(setup)])
+        beh = []
+        for _ in range(rng.choice([0, 0, 1, 2])):      # a callback that removes another pending alarm
+            beh.append([100 + rng.randrange(n), -1, [["rm_alarm", rng.randrange(n)]] + ([["alarm", rng.randrange(0, n), 90]] if rng.random() < 0.3 else [])])
+        late = rng.choice([0, 0, 0, 3])
+        return {"loop": loop, "setup": setup, "beh": beh, "env": [[late, []]] * (2 * n + 8)}
 
     def loops(self):
         return ["select", "zmq"]
@@ -1052,12 +1169,18 @@ class C13(core.Check):
             yield from self.small_scenarios(loop, rng, tier)
             for _ in range(2000 if tier == "quick" else 60000):
                 yield self.random_case(loop, rng)
+            for _ in range(500 if tier == "quick" else 8000):
+                yield self.many_alarms_case(loop, rng)
+            if tier == "thorough":     # every registration order of 7 distinct delays, one inner removal each
+                for perm in itertools.permutations(range(1, 8)):
+                    yield self.many_alarms_case(loop, rng, list(perm))
 
     def search_cases(self, rng, tier):
         for loop in self.loops():
             yield from self.small_scenarios(loop, rng, "thorough")
         while True:
             yield self.random_case(rng.choice(self.loops()), rng)
+            yield self.many_alarms_case(rng.choice(self.loops()), rng)
 
     # ---------- adapters on the real runtimes ----------
     def extra_checks(self, tier, rng, ev):
@@ -1086,6 +1209,9 @@ class C13(core.Check):
                 dist[key] = dist.get(key, 0) + 1
                 if not msgs and "log" in r:
                     ev["distinct"].add(core.h([case, [n for n, _ in r["log"]]]))
+                if case["scenario"].startswith("rerun_"):
+                    k = "obs:%s:%s:%s" % (case["adapter"], case["scenario"], r.get("outcome"))
+                    dist[k] = dist.get(k, 0) + 1
                 if "log" in r and case["scenario"].split("_")[0] in ("exc", "exit"):
                     trig = {"alarm": "a1", "idle": "i", "watch": "w"}[case["scenario"].split("_")[1]]
                     k = "obs:%s:%s:raising_callback_ran_%d" % (case["adapter"], case["scenario"], [x for x, _ in r["log"]].count(trig))
